@@ -137,6 +137,7 @@ type lockGen struct {
 	mode   string
 	clean  bool // only requests the modules accept (the block message must then succeed)
 	exodus bool // this block: every validator, the bedrock one included, withdraws everything (the whole set leaves at once)
+	boost  bool // this block: nothing but creations and generous locks, so that several validators are active afterwards
 }
 
 func (g *lockGen) id() int { g.nextID++; return g.nextID }
@@ -346,6 +347,24 @@ func (g *lockGen) plan() *BlockPlan {
 			id := g.id()
 			lk.Claims = append(lk.Claims, &goattypes.ClaimRequest{Id: uint64(id), Validator: addr, Recipient: rndAddr(r)})
 			claims = append(claims, Ev{"id": id, "v": vid})
+		}
+	}
+	if g.boost && !g.exodus {
+		lk.UpdateWeights, lk.UpdateThresholds, lk.Creates, lk.Locks, lk.Claims, lk.Grants, lk.Unlocks = nil, nil, nil, nil, nil, nil, nil
+		weights, thresholds, creates, locks, claims, unlocks = nil, nil, nil, nil, nil, nil
+		abs["grants"] = []int64{}
+		for vi := 1; vi < g.nv && vi < 4; vi++ {
+			if !st.Val[vi].Exists {
+				v := c.KR.Vals[vi]
+				lk.Creates = append(lk.Creates, &goattypes.CreateRequest{Validator: v.EthAddr(), Pubkey: v.Uncompressed()})
+				creates = append(creates, Ev{"v": vi + 1, "addrOk": true})
+			}
+			for ti, tk := range st.Tokens {
+				if tk.Exists {
+					lk.Locks = append(lk.Locks, &goattypes.LockRequest{Validator: c.KR.Vals[vi].EthAddr(), Token: project.TokenAddrs[ti], Amount: big.NewInt(int64(5 + vi))})
+					locks = append(locks, Ev{"v": vi + 1, "t": ti + 1, "amt": int64(5 + vi)})
+				}
+			}
 		}
 	}
 	if g.exodus { // nothing else in this block: the batch must not fail for another reason
